@@ -220,6 +220,35 @@ func stepsVsChip(out *core.Outcome, prop string, r *ReadRun) {
 	}
 }
 
+// smExchangeOracle: every exchange the library accepted while a session was installed (it appears in the
+// APDU log with a protected child entry) must be one the chip processed, and the plaintext response the
+// library delivered must be exactly the plaintext response the chip protected for that exchange.
+func smExchangeOracle(out *core.Outcome, prop string, r *ReadRun) {
+	if r.Nfc == nil || r.Nfc.ApduLog() == nil {
+		return
+	}
+	byCmd := map[string]*chip.Exchange{}
+	for i := range r.Chip.Log {
+		byCmd[string(r.Chip.Log[i].CmdRaw)] = &r.Chip.Log[i]
+	}
+	for _, e := range r.Nfc.ApduLog().Entries {
+		if e == nil || e.Child == nil {
+			continue
+		}
+		ex, ok := byCmd[string(e.Child.Tx)]
+		if !ok {
+			out.Violate(prop, "accepted-response-chip-never-sent", e.Desc, "the library accepted a protected response (%s) for a command the chip never processed", e.Desc)
+			out.Violate("C03", "accepted-forged", "e2e/"+e.Desc, "accepted a protected response for a command the chip never processed (%s)", e.Desc)
+			continue
+		}
+		want := append(bytes.Clone(ex.PlainData), byte(ex.PlainSW>>8), byte(ex.PlainSW))
+		if !ex.RespSM || !bytes.Equal(e.Rx, want) {
+			out.Violate(prop, "accepted-response-differs-from-chip", e.Desc, "exchange %d (%s): library delivered %x, the chip protected %x (protected=%v, sm error=%q)", ex.N, e.Desc, e.Rx, want, ex.RespSM, ex.SMError)
+			out.Violate("C03", "accepted-forged", "e2e/"+e.Desc, "exchange %d (%s): library delivered %x, the chip protected %x", ex.N, e.Desc, e.Rx, want)
+		}
+	}
+}
+
 // ------------------------------------------------------------------ C08 engine
 
 type E2ECase struct {
@@ -389,6 +418,7 @@ func (E2EEngine) Run(prop string, ci any) *core.Outcome {
 	// safety half: always
 	checkFilesIdentical(out, "C08", r, nil)
 	stepsVsChip(out, "C08", r)
+	smExchangeOracle(out, "C08", r)
 	trustInvariant(out, r.Doc, "e2e-live")
 	if r.Chip.Facts.PlainWhileSM > 0 {
 		out.Violate("C10", "plain-while-sm", "e2e", "the chip received %d unprotected command(s) while a session was installed", r.Chip.Facts.PlainWhileSM)
